@@ -67,6 +67,7 @@ def fam_lb(ctx, o):
 
 def fam_bz(ctx, o):
     kbu_rules.run_bezier(ctx.facts, o)
+    kbu_rules.run_bezier_sized(ctx.facts, o)
 
 
 def fam_ci(ctx, o):
@@ -155,8 +156,8 @@ FAMILIES = {
 PROPS = {
     'C01': {
         'families': [('ed', ['ED', 'AL', 'EP', 'FL', 'WR', 'WB']), ('fr', ['SW', 'FR-F4']), ('ug', ['UG']), ('ab', ['AB']),
-                     ('u8', ['U8']), ('px', ['PX']), ('sc', ['SC-C01'])],
-        'floors': {'ED': 30, 'AL': 1, 'EP': 1, 'SW': 2, 'SC-C01': 1},
+                     ('u8', ['U8']), ('px', ['PX']), ('sc', ['SC-C01']), ('bz', ['BZ-S'])],
+        'floors': {'ED': 30, 'AL': 1, 'EP': 1, 'SW': 2, 'SC-C01': 1, 'BZ-S': 2},
         'title': 'Decoding and re-encoding never panic, hang or fail on arbitrary bytes',
     },
     'C02': {
@@ -237,7 +238,7 @@ PROPS = {
     },
     'C18': {
         'families': [('kbu_bufs', ['KBU']), ('ci', ['CI']), ('sscurve', ['SS-C18']), ('bz', ['BZ'])],
-        'floors': {'KBU': 9, 'CI': 4, 'SS-C18': 2},
+        'floors': {'KBU': 9, 'CI': 4, 'SS-C18': 2, 'BZ-S': 2},
         'title': 'Curve computation is pure: buffers, caches and API choice do not matter',
     },
 }
